@@ -17,7 +17,7 @@ RULE = ('random finite MPS with non-uniform bond dimensions (L 2-6, all site kin
         'steps; distinct = (site kind, L, op sequence)')
 ASSUMPTIONS = ['C07 (the harness contraction denotes the MPS state)', 'fermionic swap sign = (-1)^(n_i n_j) from the JW parities']
 ANCHORS = {'tenpy/networks/mps.py': ['*']}
-REQUIRED_COUNTERS = {'op.apply_local_op': 20, 'op.apply_local_term': 10, 'op.swap_sites': 10, 'op.permute_sites': 5, 'op.add': 10,
+REQUIRED_COUNTERS = {'op.get_grouped_mps': 20, 'op.extract_enlarged_segment': 20, 'op.apply_local_op': 20, 'op.apply_local_term': 10, 'op.swap_sites': 10, 'op.permute_sites': 5, 'op.add': 10,
                      'op.group': 5, 'op.compress': 10, 'op.spatial_inversion': 5, 'op.enlarge_chi': 5, 'infinite.roll': 10, 'infinite.inversion': 3,
                      'infinite.enlarge': 5, 'histories': 100}
 OPS = ['apply_local_op', 'apply_local_op2', 'apply_product_op', 'apply_local_term', 'swap_sites', 'permute_sites', 'add', 'group',
@@ -306,9 +306,63 @@ def case_finite(ctx, i):
             return
         if op == 'enlarge_chi':
             break  # exactly-zero singular values: later form conversions divide by them (documented caveat)
+    if op != 'enlarge_chi':
+        final_copies(ctx, psi, ref, case, rng)
     ctx.sig((kind, L, tuple(s[0] for s in steps)), nontrivial=max(case['chi'] + [1]) >= 2 and len(steps) >= 2)
     if i % 120 == 0:
         ctx.sample(case)
+
+
+def final_copies(ctx, psi, ref, case, rng):
+    """Operations that return a new state: the grouped copy, and a segment enlarged back to the whole chain."""
+    from vf import dense
+    L = psi.L
+    try:
+        if L >= 2 and rng.random() < 0.5:
+            n = int(rng.integers(2, min(L, 3) + 1))
+            before = dense.finite_vector(psi)
+            g = psi.get_grouped_mps(n)
+            ctx.count('op.get_grouped_mps')
+            if g is psi or g.L != -(-L // n) or psi.L != L:
+                ctx.violation('get_grouped_mps:not-a-grouped-copy', 'L %d -> %d, original L now %d' % (L, g.L, psi.L), case)
+                return
+            # (the basis of a GroupedSite may be permuted by charge: compare after splitting the copy again)
+            g.group_split(trunc_par={'chi_max': 10000, 'svd_min': 1e-14, 'trunc_cut': None})
+            vg = dense.finite_vector(g).reshape(-1)
+            if vg.shape != before.reshape(-1).shape or not (np.linalg.norm(vg - before.reshape(-1)) <= 1e-8 * max(1.0, np.linalg.norm(before))):
+                ctx.violation('get_grouped_mps:state-differs', '', case)
+            if not (np.linalg.norm(dense.finite_vector(psi) - before) <= 1e-12 * max(1.0, np.linalg.norm(before))):
+                ctx.violation('get_grouped_mps:changes-the-original', '', case)
+        if L >= 3:
+            first = int(rng.integers(0, L - 1))
+            last = int(rng.integers(first + 1, L)) if first > 0 or rng.random() < 0.5 else int(rng.integers(1, L - 1))
+            if (first, last) == (0, L - 1):
+                return
+            psi.canonical_form()
+            want = dense.finite_vector(psi).reshape(-1)
+            seg = psi.extract_segment(first, last)
+            big, nf, nl = seg.extract_enlarged_segment(psi, psi, first, last, add_unitcells=0)
+            ctx.count('op.extract_enlarged_segment')
+            if (nf, nl) != (0, L - 1) or big.L != L:
+                ctx.violation('extract_enlarged_segment:range', 'segment (%d, %d) of %d sites enlarged by 0 cells: (%r, %r), L=%d' %
+                              (first, last, L, nf, nl, big.L), case)
+                return
+            # documented: for an initially finite MPS this yields the state on the full finite system
+            import checks.C07 as C7
+            got = C7.seg_full(big) if hasattr(C7, 'seg_full') and big.bc == 'segment' else dense.finite_vector(big)
+            got = np.asarray(got).reshape(-1)
+            if got.shape != want.shape:
+                ctx.violation('extract_enlarged_segment:dimension', '%r vs %r' % (got.shape, want.shape), case)
+                return
+            ov = abs(np.vdot(want, got)) / max(np.linalg.norm(want) * np.linalg.norm(got), 1e-300)
+            if not (abs(ov - 1) <= 1e-8):
+                ctx.violation('extract_enlarged_segment:state-differs', 'overlap with the original state %r (segment %d..%d of %d)' %
+                              (ov, first, last, L), case)
+    except Exception as e:
+        tb = traceback.format_exc()
+        if '/tenpy/' not in tb:
+            raise
+        ctx.violation('final-copies:raises-%s' % type(e).__name__, tb[-700:], case)
 
 
 def qt_now(psi):
